@@ -35,6 +35,9 @@ Put(f, k, v) == [x \in DOMAIN f \cup {k} |-> IF x = k THEN v ELSE f[x]]
 MaxI(a, b) == IF a >= b THEN a ELSE b
 Topic(e) == IF e.n = "updated" THEN e.u ELSE e.n
 
+\* failure reports that name the abstract case (extra fields are passed through to the check script)
+Fail2(inv, s, x) == PrintT(ToJson([monfail |-> inv, line |-> l, s |-> s, x |-> x]))
+
 MInit == l = 1 /\ m = M0 /\ MarkInit
 
 OnReset(e) == m' = [M0 EXCEPT !.off = AsSet(e.capOff)]
@@ -65,16 +68,18 @@ OnChangeEnd(e) ==
 OnUpdatedBegin(e) == m' = [m EXCEPT !.cv = Put(m.cv, e.u, e.cv), !.updB = e.seq]
 \* ResourceUpdated has returned: it handed the notification to exactly the sessions subscribed to the URI
 OnUpdatedEnd(e) ==
-  LET to == {s \in DOMAIN m.era : \E i \in DOMAIN Get(m.sends, <<s, e.u>>, <<>>) : m.sends[<<s, e.u>>][i].seq > m.updB} IN
-  /\ Check(l, "C18.UpdatedExactlySubscribers", to = Get(m.usub, e.u, {}))
+  LET to == {s \in DOMAIN m.era : \E i \in DOMAIN Get(m.sends, <<s, e.u>>, <<>>) : m.sends[<<s, e.u>>][i].seq > m.updB}
+      sub == Get(m.usub, e.u, {}) IN
+  /\ \A s \in to \ sub : Fail2("C18.UpdatedExactlySubscribers", s, "extra")
+  /\ \A s \in sub \ to : Fail2("C18.UpdatedExactlySubscribers", s, "missing")
   /\ m' = m
 
 OnSend(e) ==
   IF e.n = "ack" \/ e.s = "?" THEN m' = m
   ELSE LET t == Topic(e)
            rec == [seq |-> e.seq, stamp |-> IF e.n = "updated" THEN m.cv ELSE m.ver] IN
-       /\ Check(l, "C18.OnlyEntitled", e.n \in ListNotifs => Get(m.ent, <<e.s, e.n>>, 0) # 0)
-       /\ Check(l, "C18.NoneWhenDisabled", e.n \in ListNotifs => e.n \notin m.off)
+       /\ ((e.n \in ListNotifs /\ Get(m.ent, <<e.s, e.n>>, 0) = 0) => Fail2("C18.OnlyEntitled", e.s, e.n))
+       /\ ((e.n \in ListNotifs /\ e.n \in m.off) => Fail2("C18.NoneWhenDisabled", e.s, e.n))
        /\ m' = [m EXCEPT !.sends = Put(m.sends, <<e.s, t>>, Append(Get(m.sends, <<e.s, t>>, <<>>), rec))]
 
 OnArrive(e) == m' = [m EXCEPT !.acnt = Put(m.acnt, <<e.s, Topic(e)>>, Get(m.acnt, <<e.s, Topic(e)>>, 0) + 1)]
@@ -101,9 +106,9 @@ OnListBegin(e) ==
 \* change that notification announced
 OnListEnd(e) ==
   LET c == m.calls[e.id] IN
-  /\ Check(l, "C18.Fresh",
-           e.ok => IF e.kind = "read" THEN e.cv >= c.hs
-                   ELSE \E v \in 0..m.ver[e.item] : m.names[e.item][v + 1] = AsSet(e.names) /\ v >= c.hs)
+  /\ (IF e.ok => (IF e.kind = "read" THEN e.cv >= c.hs
+                    ELSE \E v \in 0..m.ver[e.item] : m.names[e.item][v + 1] = AsSet(e.names) /\ v >= c.hs)
+        THEN TRUE ELSE Fail2("C18.Fresh", e.s, e.item))
   /\ m' = m
 
 OnSubEnd(e) == m' = IF e.ok THEN [m EXCEPT !.usub = Put(m.usub, e.u, Get(m.usub, e.u, {}) \cup {e.s})] ELSE m
@@ -121,24 +126,31 @@ Forgotten(sn) ==
      /\ \A n \in DOMAIN sn.lsub : s \notin AsSet(sn.lsub[n])
      /\ \A u \in DOMAIN sn.rsub : s \notin AsSet(sn.rsub[u])
 
-OnSnap(e) == m' = m /\ Check(l, "C18.ForgottenOnClose", Forgotten(e.snap))
+ReportForgotten(sn) ==
+  \A s \in m.closed :
+     /\ (s \in AsSet(sn.sessions) => Fail2("C18.ForgottenOnClose", s, "sessions"))
+     /\ \A n \in DOMAIN sn.lsub : (s \in AsSet(sn.lsub[n]) => Fail2("C18.ForgottenOnClose", s, "list-changed:" \o n))
+     /\ \A u \in DOMAIN sn.rsub : (s \in AsSet(sn.rsub[u]) => Fail2("C18.ForgottenOnClose", s, "resource-subscription"))
+
+OnSnap(e) == m' = m /\ (IF Forgotten(e.snap) THEN TRUE ELSE ReportForgotten(e.snap))
 
 \* all gates are open and the clock has run far beyond every timer: the burst is over
+Lost(s, n) ==
+  LET en == Get(m.ent, <<s, n>>, 0)
+      sent == Get(m.sends, <<s, n>>, <<>>) IN
+  /\ en # 0 /\ en < m.chgB[n]
+  /\ ~\E i \in 1..Get(m.acnt, <<s, n>>, 0) : i <= Len(sent) /\ sent[i].seq > m.chgE[n]
+
 OnQuiesce(e) ==
   /\ m' = m
-  /\ Check(l, "C18.ForgottenOnClose", Forgotten(e.snap))
-  /\ Check(l, "C18.NeverLost",
-           \A n \in ListNotifs \ m.off : n \in DOMAIN m.chgB =>
-              \A s \in DOMAIN m.era :
-                 LET en == Get(m.ent, <<s, n>>, 0)
-                     sent == Get(m.sends, <<s, n>>, <<>>) IN
-                 (en # 0 /\ en < m.chgB[n]) =>
-                     \E i \in 1..Get(m.acnt, <<s, n>>, 0) : i <= Len(sent) /\ sent[i].seq > m.chgE[n])
+  /\ (IF Forgotten(e.snap) THEN TRUE ELSE ReportForgotten(e.snap))
+  \* every session entitled to n when the last change of the burst was made, and ever since, has received a
+  \* notification that the server sent after that change
+  /\ \A n \in ListNotifs \ m.off : n \in DOMAIN m.chgB =>
+        \A s \in DOMAIN m.era : Lost(s, n) => Fail2("C18.NeverLost", s, n)
   \* every resource-updated notification handed to a session that is still open has reached it
-  /\ Check(l, "C18.UpdatedDelivered",
-           \A x \in DOMAIN m.sends :
-              (x[2] \notin ListNotifs /\ x[1] \in m.open) =>
-                  Get(m.acnt, x, 0) = Len(m.sends[x]))
+  /\ \A x \in DOMAIN m.sends :
+        (x[2] \notin ListNotifs /\ x[1] \in m.open /\ Get(m.acnt, x, 0) # Len(m.sends[x])) => Fail2("C18.UpdatedDelivered", x[1], x[2])
 
 Step(e) ==
   CASE e.ev = "reset"         -> OnReset(e)
